@@ -199,7 +199,10 @@ pub fn run_schedule(notes: usize, acts: &[Act]) -> Outcome2 {
             to_server
                 .send(Message::Notification(Notification {
                     method: "textDocument/didChange".to_string(),
-                    params: json!({"textDocument": {"uri": uri(*note), "version": ver}, "contentChanges": [{"text": note_text(*note, notes, *ver)}]}),
+                    // the version number an editor attaches is its own business: the first edit of a note carries a large one (the
+                    // note has been open for a while), the later ones restart at 1 (closed and opened again — the server is not
+                    // told: it handles neither didOpen nor didClose).  Whatever arrives last is the text.
+                    params: json!({"textDocument": {"uri": uri(*note), "version": if *ver <= 1 { 40 } else { *ver - 1 }}, "contentChanges": [{"text": note_text(*note, notes, *ver)}]}),
                 }))
                 .unwrap();
         }
